@@ -1,13 +1,13 @@
 package fssim
 
 import (
-	"compress/flate"
-	"hash/crc32"
 	"archive/zip"
 	"bytes"
+	"compress/flate"
 	"compress/gzip"
 	"errors"
 	"fmt"
+	"hash/crc32"
 	"io"
 	"net/http"
 	"os"
